@@ -661,6 +661,9 @@ func FuzzShape(f *testing.F) {
 	for i := 0; i < 8; i++ {
 		f.Add(uint16((i*97)%len(p.All)), paramSeeds[i%len(paramSeeds)], hostile[i*4:])
 	}
+	if !fuzzWorker {
+		ev.Note("FuzzShape: cases executed by the fuzz worker processes are not in these counters (see TestMain); the go test log of the job reports the number of executions")
+	}
 	f.Fuzz(func(t *testing.T, fontIndex uint16, params []byte, text []byte) {
 		c := sc.Decode(fontIndex, params, text, sc.Opts{MaxLen: maxLenForTier()})
 		checkCase(t, c)
